@@ -17,11 +17,18 @@ def main():
         m = json.load(open(mp))
         caught = "; ".join("**%s**: %s" % (k, v) for k, v in (m.get("caught_by") or {}).items()) or ("**not caught** - " + m.get("not_caught_reason", ""))
         rows.append("| %s | %s | %s | %s | %s | %s |" % (name, m.get("property"), m.get("summary", "").replace("|", "/"), m.get("needs", "").replace("|", "/"), caught.replace("|", "/"), (m.get("missed_before") or "-").replace("|", "/")))
+    n_missed = sum(1 for r in rows if not r.rstrip().endswith("| - |"))
+    SUMMARY = (
+        "Round 1 (ids `Cxxa/b`) covered all 20 properties; round 2 (`r2`) all 20 again with the first round's mechanisms excluded; round 3 (`r3`) "
+        "C01-C03, C05-C09, C12, C13, C18, C20 with both earlier rounds excluded. Of the %d changes kept, %d were first missed by the check of their property and led to "
+        "the additions named in the last column; one (C14b) is still not caught (it is observationally indistinguishable through the API). Several agents also reported "
+        "behaviour of the unchanged tree that contradicts a property: those remarks led to repairs F17, F20, F21, F22, F23 and to open findings F18, F26, F27 (section 10)." % (len(rows), n_missed)
+    )
     txt = HEAD + "\n" + (
         "Each change below was written by an independent sub-agent that saw only the property text and a scratch worktree of the library (nothing of /verif), "
         "was confirmed here in a scratch worktree (its demonstration passes on the original tree and fails with the patch; the full unedited test suite still passes with the patch), "
         "and is kept under `seeded/<id>/` (patch.diff, demo, notes, meta.json). Checks were run against a scratch worktree with the patch applied (`harness/seed_eval.sh`), quick tier. "
-        "The last column records what had to be strengthened when a change was first missed.\n\n"
+        "The last column records what had to be strengthened when a change was first missed. " + SUMMARY + "\n\n"
         "| id | property | change | needs in order to manifest | caught by (clause) | first missed? what was strengthened |\n|---|---|---|---|---|---|\n" + "\n".join(rows) + "\n\n"
         "The `fix:` commits of section 10 double as regression seeds: `harness/revert_check.sh <commit> <check>` re-runs a check against a scratch worktree with one fix "
         "reverted (quick tier, seed 0). Validated this way: the `_resize` livelock fix is caught by C10/C01, the shutdown(wait=False) fix by C01, the eager feeder start by C05/C01, "
